@@ -143,14 +143,22 @@ def merge_leafwise(base: dict, over: dict) -> dict:
     return out
 
 
-def expected_path(f: str) -> Path:
+class Unresolvable(Exception):
+    """The effective configuration names a file that its effective search path does not contain."""
+
+
+def expected_path(f: str, search=None) -> Path:
+    """Documented lookup: the path as given if it exists, else the first search-path entry containing it.
+    The search path is the explicit `path` setting if one is given, else AEIC_PATH followed by the packaged data."""
     p = Path(f)
     if p.exists():
         return p.resolve()
-    for base in (core.TEST_DATA, core.REPO / 'src' / 'AEIC' / 'data'):
-        if (base / p).exists():
-            return (base / p).resolve()
-    raise core.HarnessError(f'harness path {f} does not resolve')
+    if p.is_absolute():
+        raise Unresolvable(f)
+    for base in (search or (core.TEST_DATA, core.REPO / 'src' / 'AEIC' / 'data')):
+        if (Path(base) / p).exists():
+            return (Path(base) / p).resolve()
+    raise Unresolvable(f)
 
 
 def flatten_expected(eff: dict) -> dict:
@@ -159,9 +167,10 @@ def flatten_expected(eff: dict) -> dict:
     for k, v in eff['emissions'].items():
         out[('emissions', k)] = v.lower() if (k in ENUMS) else v
     out[('weather', 'use_weather')] = eff['weather']['use_weather']
-    out[('weather', 'weather_data_dir')] = expected_path(eff['weather']['weather_data_dir'])
-    out[('performance_model',)] = expected_path(eff['performance_model'])
-    out[('engine_file',)] = expected_path(eff['engine_file'])
+    search = [Path(x) for x in eff['path']] if eff.get('path') else None
+    out[('weather', 'weather_data_dir')] = expected_path(eff['weather']['weather_data_dir'], search)
+    out[('performance_model',)] = expected_path(eff['performance_model'], search)
+    out[('engine_file',)] = expected_path(eff['engine_file'], search)
     if eff.get('path'):
         out[('path',)] = [Path(x).resolve() for x in eff['path']]
     return out
@@ -288,6 +297,26 @@ class ConfigMachine(LoggedMachine):
                 if a and b and set(a) - set(b) and set(b) - set(a):
                     self.flags.add('split_table')
         try:
+            expected = flatten_expected(eff)
+        except Unresolvable as u:
+            # The overlays combine to a single-entry search path plus a relative file name that is not under it:
+            # the documented lookup cannot find the file, so this load has to be refused like any other failed load.
+            self.flags.add('unresolvable_under_explicit_path')
+            try:
+                Config.load(cfgfile, **copy.deepcopy(kwargs))
+            except Exception:  # noqa: BLE001  (any refusal is a refusal)
+                pass
+            else:
+                self.ctx.fail('load_invalid.accepted', 'returned', 'Config.load', 'unresolvable',
+                              f'load succeeded although {u} is not under the effective search path {eff.get("path")}')
+                return
+            if self.model is None:
+                self.failed_load_since = True
+                self._unconfigured_check('after failed load unresolvable')
+            else:
+                self._values_check('after failed load unresolvable while configured')
+            return
+        try:
             Config.load(cfgfile, **copy.deepcopy(kwargs))
         except RuntimeError as e:
             if self.model is None:
@@ -304,7 +333,7 @@ class ConfigMachine(LoggedMachine):
             self.ctx.fail('reload.accepted', 'returned', 'Config.load', '',
                           'a second load succeeded while a configuration was active')
             return
-        self.model = flatten_expected(eff)
+        self.model = expected
         if self.failed_load_since:
             self.flags.add('failed_then_valid')
         self._values_check('after load_valid')
